@@ -1242,7 +1242,7 @@ theorem document_completes_partial (d : Doc.Document) (h : PlainDocument d) :
         subst has
         simp only
         have hmem := paintSvgs_keeps_in_memory d.fetcher d.opts d.svgInfo
-          (d.images.filterMap (Doc.svgOfRef d.opts cache)) cache hmem h.svgs
+          ((Doc.paintOrder d.images).filterMap (Doc.svgOfRef d.opts cache)) cache hmem h.svgs
         cases hm : metadataAttachments d.fetcher d.metaAttachments with
         | mk evs' mout =>
           rw [hm] at hms
